@@ -141,7 +141,7 @@ func c10Fault(j *orch.Job, r *orch.Result) error {
 				return nil
 			}
 			n.Stop()
-			return err
+			return fmt.Errorf("%v [case: block %d %s %s; injected=%d attempt=%d]", err, p.Block, p.Label, p.describe(), atomic.LoadInt64(&injected), atomic.LoadInt64(&attempt))
 		}
 		d, err := harness.TakeDump(n.RO, harness.DumpOptions{DropBackfill: true, KeepRows: h == p.Block})
 		if err != nil {
